@@ -159,6 +159,9 @@ def check(c):
              'self.conditional_expression' and len(n.args) == 1,
              c.where(n, ev), '')
 
+    from rules._shared import prereq_dedup_rules
+    prereq_dedup_rules(c, 'C13')
+
     # ---- satisfy / unsatisfy
     sm = c.func(PR, 'Prerequisite.satisfy_me')
     sets = [n for n in c.idx.walk(sm.node) if isinstance(n, ast.Assign)
